@@ -11,6 +11,7 @@ import ZygoVerif.Model.SQ
 import ZygoVerif.Spec.Subst
 import ZygoVerif.Proofs.SQ
 import ZygoVerif.Model.LegacySQ
+import ZygoVerif.Model.MacroCall
 namespace ZygoVerif.SQ
 open ZygoVerif.Subst
 
@@ -130,6 +131,80 @@ example : evalSQ exH (Tmpl.hash "hash" [(.lit (.sym "a"), .splice (sym "l")), (.
   decide
 
 end Examples
+
+/-! ### macro calls (model of the expansion path: `Model/MacroCall.lean`) -/
+
+/-- **`macro_call_is_expansion`.** Compiling a call of macro `f` is compiling its expansion,
+in place, by the same generator (one unit of expansion fuel is spent). -/
+theorem macro_call_is_expansion {C : Type} (mk : String → List Sexp → Option Sexp)
+    (macros : String → Option Macro) (special : String → Bool)
+    (base : (Sexp → Option C) → Sexp → Option C) (n : Nat) (f : String) (args : Sexp)
+    (m : Macro) (as : List Sexp)
+    (hs : special f = false) (hm : macros f = some m) (ha : listToArray args = some as) :
+    generate mk macros special base (n + 1) (.cons (.atom (.sym f)) args)
+      = (expand mk m as).bind (generate mk macros special base n) := by
+  simp [generate, hs, hm, ha]
+
+/-- The expansion of a template macro `(defmac f [p…] ^T)` is `T` with the parameters replaced
+by the argument forms — the substitution of the spec. -/
+theorem expand_is_substitution (mk : String → List Sexp → Option Sexp) (m : Macro) (as : List Sexp)
+    (T : Tmpl) (wf : T.WF = true) (hb : m.body = T.toSexp) (hl : as.length = m.params.length) :
+    expand mk m as = subst (toBinding (paramHost mk m.params as)) T := by
+  simp only [expand, hl, ne_eq, not_true_eq_false, if_false, hb, sq_correct _ T wf]
+  cases subst (toBinding (paramHost mk m.params as)) T <;> rfl
+
+/-- Calling a template macro compiles to exactly what the hand-written expansion compiles to. -/
+theorem macro_call_equals_handwritten {C : Type} (mk : String → List Sexp → Option Sexp)
+    (macros : String → Option Macro) (special : String → Bool)
+    (base : (Sexp → Option C) → Sexp → Option C) (n : Nat) (f : String) (args : Sexp)
+    (m : Macro) (as : List Sexp) (T : Tmpl) (x : Sexp)
+    (hs : special f = false) (hm : macros f = some m) (ha : listToArray args = some as)
+    (wf : T.WF = true) (hb : m.body = T.toSexp) (hl : as.length = m.params.length)
+    (hx : subst (toBinding (paramHost mk m.params as)) T = some x) :
+    generate mk macros special base (n + 1) (.cons (.atom (.sym f)) args)
+      = generate mk macros special base n x := by
+  rw [macro_call_is_expansion mk macros special base n f args m as hs hm ha,
+    expand_is_substitution mk m as T wf hb hl, hx]
+  rfl
+
+/-- **`expansion_leaves_caller`.** The expansion runs in a duplicate: the caller's control
+state (four stacks, pc, current function) is what it was, and for a template macro so are the
+parts shared with the duplicate (global scope, macro table); the form handed back is the
+expansion. -/
+theorem expansion_leaves_caller {G : Type} (mk : String → List Sexp → Option Sexp) (e e' : Interp G)
+    (m : Macro) (args : List Sexp) (x : Sexp) (h : expandCall mk e m args = some (x, e')) :
+    e'.ctl = e.ctl ∧ e'.global = e.global ∧ e'.macros = e.macros ∧ expand mk m args = some x := by
+  unfold expandCall applyIn at h
+  by_cases hl : args.length ≠ m.params.length
+  · simp [hl] at h
+  · simp only [hl, if_false] at h
+    have hfresh : (duplicate e).ctl.data = [] := rfl
+    rw [hfresh] at h
+    cases hev : evalOn (paramHost mk m.params args) (genTop (paramHost mk m.params args) m.body) [] with
+    | none => simp [hev] at h
+    | some p =>
+      obtain ⟨v, rest⟩ := p
+      simp only [hev, Option.some.injEq, Prod.mk.injEq] at h
+      obtain ⟨hv, he⟩ := h
+      subst he
+      refine ⟨rfl, rfl, rfl, ?_⟩
+      simp [expand, hl, evalSQ, hev, hv]
+
+/-- The duplicate starts from fresh stacks whatever the caller's stacks hold. -/
+theorem duplicate_is_fresh {G : Type} (e : Interp G) :
+    (duplicate e).ctl = Ctl.fresh ∧ (duplicate e).global = e.global ∧ (duplicate e).macros = e.macros :=
+  ⟨rfl, rfl, rfl⟩
+
+/-- `(defmac m [a l] ^(list ~a [~@l ~a]))`, `(m (+ x 1) (1 2))` expands to
+`(list (+ x 1) [1 2 (+ x 1)])`; a wrong number of arguments is an error. -/
+example :
+    let m : Macro := { params := ["a", "l"], body := (Tmpl.list [.lit (.sym "list"), .unquote (sym "a"),
+      .arr [.splice (sym "l"), .unquote (sym "a")]]).toSexp }
+    let plus := mkList [sym "+", sym "x", num 1]
+    expand exH.mkHash m [plus, mkList [num 1, num 2]]
+        = some (mkList [sym "list", plus, .arr (mkList [num 1, num 2, plus])])
+      ∧ expand exH.mkHash m [plus] = none := by
+  decide
 
 /-! ### the pinned tree (before fixes/C15-02, C15-03 and the error-propagation commit) -/
 
